@@ -64,13 +64,12 @@ form before any rule reads it (`sa/model.py`):
 * locals are mapped back to their reference names (`baselines/locals.json`);
 * when one branch of an `if`/`else` always leaves (return / continue / break / raise, also through a nested `if`/`else`
   whose branches both leave), the leaving branch is the body - the test negated if necessary - and the other branch follows
-  the conditional; when both leave, the `else` is dissolved and the error branch stands first, otherwise the written order is
-  kept; an `elif` after a leaving body is dissolved when the chain has no final `else` (exhaustive chains keep their shape);
+  the conditional; when both leave, the `else` is dissolved and the written order is kept; an `elif` after a leaving body is dissolved when the chain has no final `else` (exhaustive chains keep their shape);
 * a negated test that still has an `else` is flipped;
 * a constant-like side of a symmetric comparison stands on the right; rules that compare two non-constant sides
   (C17 SPLIT) do so modulo their order.
 
-`baselines/skips.json` is read from the unchanged tree under the same canonical form.  What is *not* canonicalised: the
+A third tool, `tools/global_probe.py`, applies one rewrite to every function of every module at once (up to 240 files) and runs all thirty checks on that overlay.  `baselines/skips.json` is read from the unchanged tree under the same canonical form.  What is *not* canonicalised: the
 inversion of an `if`/`else` whose branches both leave and neither (or both) report an error, and the inversion of a guard
 clause together with the rest of its block; renaming a function the rules are anchored in ends the run as analysis-broken
 (exit 2), not as a violation.  Last runs (2026-09-22, on /repo HEAD bb1b1454): rename probe 66/66 functions silent; refactor probe silent in all seven modes (identity, invert, swapeq, deelse, addelse, noise, extract) on all 66 functions after the corrections listed here (the last corrections: asserts are no-ops for the C04 interpreter, C12 and ERR4 follow a returned local to its assignment, C18 REP counts uses per definition).
